@@ -43,3 +43,12 @@ PROPS["C14"] = {
     "trusted_base": ["Gen/StyleFields.v and Gen/CloneFields.v regenerated from pkg/style/style.go on every run", "setting objects are identified by Go pointer identity in the harness"],
     "assumptions": ["deep-copy (as opposed to field-complete) cloning is judged by the harness (scribbling through the clone), the table check is syntactic"],
 }
+
+PROPS["C05"] = {
+    "n": {"quick": 1, "thorough": 1},
+    "per_shard": 400,
+    "corr_targets": ["Corr/SaveIOCorr.vo"],
+    "corr": "Corr/SaveIOCorr.v: Model.SaveIO.save with the checks read from the source vs the real Save under an injected write failure at byte offset k / onto an existing target",
+    "trusted_base": ["Gen/SaveEffects.v regenerated from Document.Save on every run", "RLIMIT_FSIZE with SIGXFSZ ignored as the fault injector (kernel behaviour observed, not modelled)"],
+    "assumptions": ["archive/zip reports a failed flush of its buffered writer at the latest from Close (sticky error) - modelled, and exercised by the fault enumeration", "short writes and close(2) errors of network file systems are modelled (fclose_fails) but cannot be injected here"],
+}
